@@ -17,9 +17,9 @@ import (
 // C15 — passwords never appear in printed statements or sanitized query text.
 
 var c15pwAlpha = []string{"z", "q", " ", "'", `"`, `\`, "=", ";", "\t", "\n"}
-var c15users = []string{"u0", "my user", "a=b", "with password", "select", `x"y`, "for", "é"}
-var c15must = []string{" ", "  ", "\t", "\n", "\r\n", " /*c*/ ", " --c\n", "/**/", " /*/ c */ ", "/* 'q' \"z\" */"}
-var c15may = []string{" ", "", "  ", "\n", " /*c*/ ", "--c\n", "/*/ c */", " /* ' */ "}
+var c15users = []string{"u0", "my user", "a=b", "with password", "select", `x"y`, "for", "é", `RAW:abc"def"`, `RAW:for"='s'"`}
+var c15must = []string{" ", "  ", "\t", "\n", "\r\n", " /*c*/ ", " --c\n", "/**/", " /*/ c */ ", "/* 'q' \"z\" */", "/*/", " /****/ ", "\f", "\u00a0", "\v", " -- c\r"}
+var c15may = []string{" ", "", "  ", "\n", " /*c*/ ", "--c\n", "/*/ c */", " /* ' */ ", "/*/", "\f", "\u00a0", " /* c ***/ "}
 
 type c15tok struct {
 	text string
@@ -60,7 +60,9 @@ func c15one(c *xplore.Ctx, pw string, kindFree bool) c15stmt {
 	}
 	user := c15users[c.ChooseC(gram.CValue, len(c15users))]
 	utext := user
-	if !gram.BareLegal(user) {
+	if strings.HasPrefix(user, "RAW:") {
+		utext = user[4:] // a bare part fused with a quoted part: the scanner reads it as one identifier
+	} else if !gram.BareLegal(user) {
 		utext = gram.QuoteIdentSpec(user)
 	}
 	var out c15stmt
